@@ -26,7 +26,15 @@ CONTAINER_ASSUME = {
 def run_containers(pid, tier, seed):
     t0 = time.time()
     binary = common.build_engine("containers")
-    res = common.run_engine(binary, [pid, "--tier", tier], timeout=4 * 3600)
+    env = common.env_offline()
+    if pid == "C14":
+        # the weight-balance parameter is the one the repository documents
+        import re
+        with open(os.path.join(common.REPO, "eqlog-runtime", "src", "wbtree", "map.rs")) as f:
+            m = re.search(r"const DELTA: usize = (\d+);", f.read())
+        if m:
+            env["VERIF_WB_DELTA"] = m.group(1)
+    res = common.run_engine(binary, [pid, "--tier", tier], timeout=4 * 3600, env=env)
     viol = res.get("violations", [])
     return common.finish(pid, tier, CONTAINER_LEVEL[pid], res, viol, t0, CONTAINER_ASSUME[pid], seed)
 
